@@ -853,6 +853,13 @@ func (r *proxyStreamReceiver) recvReplicationMessages(
 							},
 						},
 					}
+					// A target that is handed tasks takes part in the ack aggregation from now on: until it reports
+					// progress itself, nothing at or above its first task may be acknowledged to the source.
+					r.ackMu.Lock()
+					if _, reported := r.ackByTarget[targetShardID]; !reported {
+						r.ackByTarget[targetShardID] = tasks[0].SourceTaskId
+					}
+					r.ackMu.Unlock()
 					if r.shardManager.DeliverMessagesToShardOwner(targetShardID, &msg, shutdownChan, r.logger) {
 						sentByTarget[targetShardID] = true
 						numRemaining--
